@@ -87,6 +87,10 @@ class Prior(HoloPyObject):
         return self + value
 
     def __sub__(self, value):
+        if isinstance(value, np.ndarray):
+            return np.array([self - val for val in value])
+        if isinstance(value, np.unsignedinteger):
+            value = int(value)  # negating a numpy unsigned wraps around
         return self + (-value)
 
     def __rsub__(self, value):
